@@ -172,7 +172,11 @@ impl<R: for<'gc> Rootable<'gc>> DynamicRoot<R> {
     /// the arena that holds the parent `DynamicRootSet`.
     #[inline]
     pub fn as_ptr<'gc>(&self) -> *const Root<'gc, R> {
-        unsafe { mem::transmute::<&Root<'static, R>, &Root<'gc, R>>(&self.ptr) as *const _ }
+        // The handle may have outlived the object (or the whole arena): the pointer is passed on
+        // as it is stored, without forming a reference to what it points to.
+        unsafe {
+            mem::transmute::<*const Root<'static, R>, *const Root<'gc, R>>(Gc::as_ptr(self.ptr))
+        }
     }
 }
 
